@@ -554,6 +554,56 @@ void run_c11(const std::vector<std::vector<std::string>>& cases, vt::Rng& rng)
    }
 }
 
+// ---- C03 -------------------------------------------------------------------------------
+// case line: <id> <ytype 1..6> <basis mass|gauge> <offdiag 0|1> <tb low|mid|high>
+void run_c03(const std::vector<std::vector<std::string>>& cases, vt::Rng& rng)
+{
+   for (const auto& c : cases) {
+      const std::string& id = c.at(0);
+      const int ytype = std::stoi(c.at(1));
+      const bool gauge = c.at(2) == "gauge", offd = c.at(3) == "1";
+      ThdmPt p = vm::random_thdm_mass(rng, ytype, offd);
+      p.mb.tan_beta = tb_of(c.at(4), rng);
+      p.mb.m122 = p.mb.mA * p.mb.mA * p.mb.tan_beta / (1 + p.mb.tan_beta * p.mb.tan_beta) * rng.uni(0.5, 1.5);
+      if (offd) {      // sizeable lepton-flavour-violating entries
+         if (ytype == 5) p.mb.Delta_l = vm::rand33(rng, 0.2);
+         if (ytype == 6) p.mb.Pi_l = vm::rand33(rng, 0.2);
+      }
+      p.sm.set_mv(0, rng.coin() ? 0.0 : rng.logu(1e-12, 1e-9)); p.sm.set_mv(1, rng.coin() ? 0.0 : rng.logu(1e-12, 1e-9));
+      p.sm.set_mv(2, rng.coin() ? 0.0 : rng.logu(1e-12, 1e-9));
+      const std::string sig = std::string("thdm/type") + c.at(1) + "/" + c.at(2) + (offd ? "/offdiag/" : "/diag/") + c.at(4);
+      Built b = build(p);
+      if (b.exc.empty() && gauge) {
+         // rebuild the same point from its gauge-basis parameters
+         ThdmPt g = p; g.mass_basis = false;
+         thdm::Gauge_basis& gb = g.gb;
+         gb.yukawa_type = p.mb.yukawa_type;
+         gb.lambda << b.model->get_lambda1(), b.model->get_lambda2(), b.model->get_lambda3(), b.model->get_lambda4(), b.model->get_lambda5(),
+                      b.model->get_lambda6(), b.model->get_lambda7();
+         gb.tan_beta = p.mb.tan_beta; gb.m122 = b.model->get_m122();
+         gb.zeta_u = p.mb.zeta_u; gb.zeta_d = p.mb.zeta_d; gb.zeta_l = p.mb.zeta_l;
+         gb.Delta_u = p.mb.Delta_u; gb.Delta_d = p.mb.Delta_d; gb.Delta_l = p.mb.Delta_l;
+         gb.Pi_u = p.mb.Pi_u; gb.Pi_d = p.mb.Pi_d; gb.Pi_l = p.mb.Pi_l;
+         b = build(g);
+      }
+      vt::Ev ev("OneLoop");
+      ev.str("model", "thdm").str("case", id).str("sig", sig).str("exc", b.exc);
+      if (b.exc.empty()) {
+         const THDM& m = *b.model;
+         NV v;
+         v.push_back({"alpha", m.get_alpha_em()}); v.push_back({"mw", m.get_MVWm()}); v.push_back({"mz", m.get_MVZ()});
+         v.push_back({"mhSM", m.get_sm().get_mh()}); v.push_back({"mh", m.get_Mhh(0)}); v.push_back({"mH", m.get_Mhh(1)});
+         v.push_back({"mA", m.get_MAh(1)}); v.push_back({"mHp", m.get_MHm(1)});
+         vm::push_mat(v, "ml", m.get_MFe()); vm::push_mat(v, "mv", m.get_MFv());
+         vm::push_cmat(v, "ylh", m.get_ylh()); vm::push_cmat(v, "ylH", m.get_ylH()); vm::push_cmat(v, "ylA", m.get_ylA());
+         vm::push_cmat(v, "ylHp", m.get_ylHp());
+         v.push_back({"a1L", calculate_amu_1loop(m)});
+         ev.raw("o", vm::named_json(v));
+      }
+      ev.emit();
+   }
+}
+
 } // namespace
 
 int main(int argc, char** argv)
@@ -570,6 +620,7 @@ int main(int argc, char** argv)
    else if (mode == "c10") run_c10(cases, rng);
    else if (mode == "c20") run_c20(cases, rng);
    else if (mode == "c11") run_c11(cases, rng);
+   else if (mode == "c03") run_c03(cases, rng);
    else { std::fprintf(stderr, "unknown mode %s\n", mode.c_str()); return 2; }
    vt::flush_trace();
    return 0;
